@@ -383,7 +383,9 @@ def _one(ctx, qp, opzoo, UND, op, info, rng):
             if len(dgw) == nw:
                 Dm, _ = _ops_unitary(qp, D, wires)
                 lhs = Dm @ Mown @ Dm.conj().T
-                ok, err = _close(lhs, np.diag(ev), 1e-8 * max(1.0, scale))
+                # eigenvector matrices obtained numerically (QubitUnitary from eig/eigh) are iterative numerics: looser, stated bound
+                dtol = (1e-5 if any(type(g).__name__ == "QubitUnitary" for g in D) else 1e-8) * max(1.0, scale)
+                ok, err = _close(lhs, np.diag(ev), dtol)
                 if not ok:
                     mech = f"diag-gates:{name}"
                     if np.linalg.norm(Dm @ Dm.conj().T - np.eye(Dm.shape[0])) > 1e-6:
